@@ -147,6 +147,31 @@ def r4(ctx):
     ctx.emit('C08-R4', ok, BTM, call[0] if call else f, 'the per-method fragment size is what the multiprocessing entry point receives', key='margin-wiring', nontrivial=False)
 
 
+@rule('C08', 'C08-R5', 'the job list covers every contig exactly once in both modes: contig-per-process job construction (shared with C05-R1/R2), chunking '
+                       'of the tiled bins (shared with C17-R5), and the contig whitelist handed to the tiling is a container that can be tested repeatedly')
+def r5(ctx):
+    from . import C05, C17
+    from ..core import include
+    include(ctx, C05, [C05.r1, C05.r2], 'C08-R5')
+    include(ctx, C17, [C17.r5], 'C08-R5')
+    f = ctx.fn(BTM, 'tag_multiome_multi_processing')
+    # `contig in contig_whitelist` is evaluated once per header contig inside blacklisted_binning_contigs: a one-shot iterator (generator
+    # expression, map, filter, zip, iter) is exhausted by the first failing membership test and silently drops all later contigs
+    calls = [c for c in walk_no_nested(f) if isinstance(c, ast.Call) and last_name(dotted(c.func) or '') == 'blacklisted_binning_contigs']
+    for c in calls:
+        wl = [k.value for k in c.keywords if k.arg == 'contig_whitelist']
+        if not wl:
+            continue
+        vals = [wl[0]]
+        if isinstance(wl[0], ast.Name):
+            vals = [s_.value for s_ in walk_no_nested(f) if isinstance(s_, ast.Assign) and len(s_.targets) == 1 and src(s_.targets[0]) == wl[0].id]
+        one_shot = [v for v in vals if isinstance(v, ast.GeneratorExp) or (isinstance(v, ast.Call) and dotted(v.func) in ('map', 'filter', 'zip', 'iter', 'reversed'))]
+        ctx.emit('C08-R5', bool(vals) and not one_shot, BTM, one_shot[0] if one_shot else c,
+                 f'contig whitelist of the tiling is built as {sorted({type(v).__name__ for v in vals})} (re-iterable)' if not one_shot else
+                 f'contig whitelist `{src(one_shot[0])[:80]}` is a one-shot iterator: the per-contig membership tests exhaust it and later contigs get no bins',
+                 key='whitelist-reiterable', what='tag_multiome_multi_processing: the contig whitelist is a one-shot iterator')
+
+
 META = {
     'text': ('Decides: the per-job ownership test equals "other contig or site outside the half-open [start, end)" on every ordering, and the '
              'tested site is the molecule cut site; the early stop compares the site with the FETCH end; reads are fetched from the fetch window; '
